@@ -402,7 +402,7 @@ class ConnectRun(object):
         return self.trace()
 
     def trace(self):
-        return dict(id=cfg_id(self.cfg), const=self.cfg, ev=self.ev)
+        return dict(id=cfg_id(self.cfg), const=self.cfg, ev=self.ev, fired=self.fault_fired)
 
 
 def run_connect(cfg, clock):
@@ -752,6 +752,23 @@ def run(tier, seed):
             [(e["a"], e["o"], e["r"]) for e in tr["ev"][:v[1]] if e["a"] in ("Startup", "Discover", "Connect", "Release")]),
             replay=dict(kind="connect", cfg=tr["const"]))
     ck.cover(traces_validated_against_impl=acc, trace_events=sum(len(t["ev"]) for t in traces), trace_states=st["states"])
+    # fault injection is not vacuous: faults fired inside activations, some activations were given up, others recovered
+    fx = [t for t in traces if t["const"].get("fault")]
+    fired = [t for t in fx if t.get("fired")]
+
+    def skipped(t):
+        e = t["ev"]
+        return any(e[i]["a"] == "Discover" and e[i]["o"] == "rdwr" and e[i]["r"] == "T" and e[i + 1]["a"] != "Connect"
+                   for i in range(len(e) - 1))
+    nskip = sum(1 for t in fired if skipped(t))
+    by = {}
+    for t in fired:
+        k = "%s/%s" % (t["const"]["ttype"], t["const"]["fault"]["cls"])
+        by[k] = by.get(k, 0) + 1
+    if fx and (not fired or nskip == 0 or nskip == len(fired)):
+        raise tlc.TLCError("activation fault injection vacuous: %d runs, %d fired, %d skipped" % (len(fx), len(fired), nskip))
+    ck.cover(activation_fault_runs=len(fx), activation_faults_fired=len(fired), activations_given_up=nskip,
+             activation_faults_by_type_and_error=by)
 
     # sense sessions
     bad = json.loads(json.dumps(next(t for t in straces if any(e["a"] == "Sense" and e["res"] == "found" and e["idx"] > 1
